@@ -3,7 +3,7 @@ import GV.Model.MultiAsset
   Helper lemmas for C06 (core Lean only).
 -/
 namespace GV.Proofs.MultiAsset
-open GV.Model.MultiAsset GV.Lib.AssocMap
+open GV.Model.MultiAsset GV.Lib.AssocMap GV.Lib.CborLite
 
 /-- quantity of a name inside one inner map -/
 def ival (i : Inner) (n : Bytes) : Int :=
